@@ -123,3 +123,51 @@ Theorem C02_example :
   exists x r, isotonic_regression [7; -1; -6; 2; 2; 0]%Q None true IFquantile (1#4) = IOk (x, r) /\ length x = 6%nat.
 Proof. exact ex_iso_quantile. Qed.
 Print Assumptions C02_example.
+
+(* ---- float twin of the quantile / median path (primitive floats; the names listed by Print Assumptions are Coq's primitive float / integer operations, not axioms; nothing from FloatAxioms) ---- *)
+From Coq Require Import PrimFloat List Bool.
+Import ListNotations.
+From MD Require Import model.PavaFloat model.GpavaQFloat proofs.PavaFloatProps proofs.GpavaQFloatProps.
+
+(* gpava with ANY functional `f` of the data slice (in particular f = quantile_lower at a float level, with numpy's float index computation): the loop terminates within fuel = n, the blocks partition y in order, every block value is f(block data) or the block is one datum, every block is non-empty and no two adjacent block values satisfy the pooling test >= *)
+Theorem C02_float_gpava_blocks :
+  forall (f : list float -> float) (y : list float),
+  exists stk : list qblk,
+    gpava_blocks_f f y = Some stk /\
+    allpos (qstk stk) /\ chain (qstk stk) /\ Forall (blk_ok f) stk /\ qdata stk = y.
+Proof. exact gpava_blocks_f_total. Qed.
+Print Assumptions C02_float_gpava_blocks.
+
+Theorem C02_float_gpava_boundary :
+  forall (f : list float -> float) (y : list float) (j : nat) (d : float),
+       (1 <= j)%nat ->
+       (S j < length (snd (gpava_f f y)))%nat ->
+       (nth (nth j (snd (gpava_f f y)) 0%nat) (fst (gpava_f f y)) d <=?
+        nth (nth j (snd (gpava_f f y)) 0%nat - 1) (fst (gpava_f f y)) d)%float = false.
+Proof. exact gpava_f_boundary. Qed.
+Print Assumptions C02_float_gpava_boundary.
+
+(* the quantile branch on ordered data: (xl, rl) = gpava(quantile_lower) is a block decomposition with strict boundaries, the result x = 0.5 * (xl + xu) is bitwise constant on the blocks rl, has length n, and r is recomputed from x *)
+Theorem C02_float_quantile_core :
+  forall (y : list float) (level lu : float),
+  exists (xl : list float) (rl : list nat),
+    (xl, rl) = gpava_f (fun d => quantile_lower_f d level) y /\
+    block_form_rel not_ge xl rl /\
+    block_form (fst (quantile_core_f y level lu)) rl /\
+    length (fst (quantile_core_f y level lu)) = length y /\
+    snd (quantile_core_f y level lu) = frecompute (fst (quantile_core_f y level lu)).
+Proof. exact quantile_core_f_spec. Qed.
+Print Assumptions C02_float_quantile_core.
+
+Theorem C02_float_median_is_quantile_half :
+  forall (y : list float) (inc : bool),
+  isotonic_median_f y inc = isotonic_quantile_f y fhalf fhalf inc.
+Proof. exact isotonic_median_f_is_quantile. Qed.
+Print Assumptions C02_float_median_is_quantile_half.
+
+(* non-vacuity, and the float index effect: 3 * fl(1/3) = 1 in binary64, so at level 0x1.5555555555555p-2 < 1/3 the code pools {3, 2, 1} into the midpoint 1.5 of [1, 2] although the exact lower and upper quantile at that level are both 1 (loss excess 2.8e-17) *)
+Theorem C02_float_example_third :
+  isotonic_quantile_f [3; 2; 1]%float 0x1.5555555555555p-2%float 0x1.5555555555556p-1%float true
+  = FOk ([1.5; 1.5; 1.5]%float, [0; 3]%nat).
+Proof. exact isotonic_quantile_f_example_third. Qed.
+Print Assumptions C02_float_example_third.
